@@ -12,10 +12,37 @@
      - `Rng::gen::<bool>()` = `(next_u32() as i32) < 0`, i.e. the top bit of one word.
    Running out of scripted words is [OutOfFuel] (the harness RNG reports the same condition as
    result `err`); no other [OutOfFuel] can arise (RandProofs: fuel_irrelevant lemmas). *)
-From BigNum Require Import Base AddSub Sign.
+From BigNum Require Import Base SrcLit AddSub Sign.
 Open Scope Z_scope.
 
 Definition rng := list Z.
+
+(** Source-extracted decision points of src/bigrand.rs (tools/extractors/rand.py); the proofs
+    (RandProofs.v) are generic under [rand_ok]. *)
+Record rand_params := {
+  rnp_bits_rem_cmp : cmpop;     (* gen_bits: `if rem > 0`                                     -> Cgt *)
+  rnp_bits_width : Z;           (* gen_bits: `data[last] >>= 32 - rem`                        -> 32 *)
+  rnp_bits_sub : bool;          (*           ... is a `-`                                     -> true *)
+  rnp_word_bits : Z;            (* gen_biguint: `bit_size.div_rem(&32)`                       -> 32 *)
+  rnp_len_rem_cmp : cmpop;      (* gen_biguint: `(digits + (rem > 0) as u64)`                 -> Cgt *)
+  rnp_native_bits : Z;          (* gen_biguint: `Integer::div_ceil(&bit_size, &64)`           -> 64 *)
+  rnp_zero_neg : bool;          (* gen_bigint: `if biguint.is_zero()` is negated              -> false *)
+  rnp_redraw_then : bool;       (* gen_bigint: `if self.gen() { continue; } else { NoSign }`: the re-draw is the then-branch -> true *)
+  rnp_zero_sign : sign;         (*             ... the other branch                           -> NoSign *)
+  rnp_true_sign : sign;         (* gen_bigint: `else if self.gen() { Plus }`                  -> Plus *)
+  rnp_false_sign : sign;        (*             `else { Minus }`                               -> Minus *)
+  rnp_below_assert_neg : bool;  (* gen_biguint_below: `assert!(!bound.is_zero())` has its `!` -> true *)
+  rnp_below_cmp : cmpop;        (* gen_biguint_below: `if n < *bound { return n; }`           -> Clt *)
+  rnp_urange_cmp : cmpop;       (* gen_biguint_range: `assert!( *lbound < *ubound )`          -> Clt *)
+  rnp_urange_zero_neg : bool;   (* gen_biguint_range: `if lbound.is_zero()` is negated        -> false *)
+  rnp_irange_cmp : cmpop;       (* gen_bigint_range: `assert!( *lbound < *ubound )`           -> Clt *)
+  rnp_irange_lo_neg : bool;     (* gen_bigint_range: `if lbound.is_zero()` is negated         -> false *)
+  rnp_irange_hi_neg : bool;     (* gen_bigint_range: `else if ubound.is_zero()` is negated    -> false *)
+  rnp_uu_new_cmp : cmpop;       (* UniformBigUint::new: `assert!(low < high)`                 -> Clt *)
+  rnp_uu_incl_cmp : cmpop;      (* UniformBigUint::new_inclusive: `assert!(low <= high)`      -> Cle *)
+  rnp_ui_new_cmp : cmpop;       (* UniformBigInt::new: `assert!(low < high)`                  -> Clt *)
+  rnp_ui_incl_cmp : cmpop       (* UniformBigInt::new_inclusive: `assert!(low <= high)`       -> Cle *)
+}.
 
 Definition next_u32 (s : rng) : outcome (Z * rng) :=
   match s with [] => OutOfFuel | w :: r => Ret (w, r) end.
@@ -34,50 +61,54 @@ Fixpoint fill_u32 (n : nat) (s : rng) : outcome (list Z * rng) :=
 Definition gen_bool (s : rng) : outcome (bool * rng) :=
   do x <- next_u32 s; let '(w, r) := x in Ret (2147483648 <=? w, r).
 
-(** `gen_bits(rng, data, rem)`: fill, then `data[len-1] >>= 32 - rem` when `rem > 0`. *)
-Definition gen_bits (len : nat) (rem : Z) (s : rng) : outcome (list Z * rng) :=
+(** `gen_bits(rng, data, rem)`: fill, then `data[len-1] >>= 32 - rem` when `rem > 0`
+    (a u32 shifted by 32 or more is a debug overflow panic). *)
+Definition gen_bits (p : rand_params) (len : nat) (rem : Z) (s : rng) : outcome (list Z * rng) :=
   do x <- fill_u32 len s;
   let '(data, r) := x in
-  if 0 <? rem then
+  if cmp_eval (rnp_bits_rem_cmp p) rem 0 then
     do _ <- assert_ (0 <? length data)%nat (Internal 1410);      (* data.len() - 1 *)
     let last := (length data - 1)%nat in
-    Ret (firstn last data ++ [Z.shiftr (nth last data 0) (32 - rem)], r)
+    let sh := addsub_lit (rnp_bits_sub p) (rnp_bits_width p) rem in
+    do _ <- assert_ ((0 <=? sh) && (sh <? 32)) (Internal 1412);
+    Ret (firstn last data ++ [Z.shiftr (nth last data 0) sh], r)
   else Ret (data, r).
 
 (** `gen_biguint(bit_size)`, 64-bit-digit arm: a zeroed `Vec<u64>` of `div_ceil(bit_size, 64)`
     digits whose first `len` u32 halves (little-endian) are generated, then `biguint_from_vec`
     (= normalize). *)
-Definition gen_biguint (bit_size : Z) (s : rng) : outcome (list Z * rng) :=
-  let digits := bit_size / 32 in
-  let rem := bit_size mod 32 in
-  let len := digits + (if 0 <? rem then 1 else 0) in
-  let native_len := (let q := bit_size / 64 in if 0 <? bit_size mod 64 then q + 1 else q) in
+Definition gen_biguint (p : rand_params) (bit_size : Z) (s : rng) : outcome (list Z * rng) :=
+  let digits := bit_size / rnp_word_bits p in
+  let rem := bit_size mod rnp_word_bits p in
+  let len := digits + (if cmp_eval (rnp_len_rem_cmp p) rem 0 then 1 else 0) in
+  let native_len := (let q := bit_size / rnp_native_bits p in
+                     if 0 <? bit_size mod rnp_native_bits p then q + 1 else q) in
   do _ <- assert_ (len <=? native_len * 2) (Internal 1411);      (* debug_assert!(native_len * 2 >= len) *)
-  do x <- gen_bits (Z.to_nat len) rem s;
+  do x <- gen_bits p (Z.to_nat len) rem s;
   let '(words, r) := x in
   let buf := u32_pairs (words ++ repeat 0 (Z.to_nat (native_len * 2 - len))) in
   Ret (strip buf, r).
 
 (** `gen_bigint(bit_size)`: the zero re-draw loop.  Each iteration consumes at least the sign
     word, so [S (length s)] iterations always suffice ([gen_bigint]). *)
-Fixpoint gen_bigint_loop (fuel : nat) (bit_size : Z) (s : rng) : outcome (bigint * rng) :=
+Fixpoint gen_bigint_loop (p : rand_params) (fuel : nat) (bit_size : Z) (s : rng) : outcome (bigint * rng) :=
   match fuel with
   | O => OutOfFuel
   | S f =>
-      do x <- gen_biguint bit_size s;
+      do x <- gen_biguint p bit_size s;
       let '(u, r) := x in
-      if uis_zero u then
+      if blit (rnp_zero_neg p) (uis_zero u) then
         do y <- gen_bool r;
         let '(b, r2) := y in
-        if b then gen_bigint_loop f bit_size r2
-        else Ret (from_biguint NoSign u, r2)
+        if blit (negb (rnp_redraw_then p)) b then gen_bigint_loop p f bit_size r2
+        else Ret (from_biguint (rnp_zero_sign p) u, r2)
       else
         do y <- gen_bool r;
         let '(b, r2) := y in
-        Ret (from_biguint (if b then Plus else Minus) u, r2)
+        Ret (from_biguint (if b then rnp_true_sign p else rnp_false_sign p) u, r2)
   end.
-Definition gen_bigint (bit_size : Z) (s : rng) : outcome (bigint * rng) :=
-  gen_bigint_loop (S (length s)) bit_size s.
+Definition gen_bigint (p : rand_params) (bit_size : Z) (s : rng) : outcome (bigint * rng) :=
+  gen_bigint_loop p (S (length s)) bit_size s.
 
 (** `BigUint::bits()` *)
 Definition leading_zeros64 (d : Z) : Z := if d =? 0 then 64 else 63 - Z.log2 d.
@@ -88,68 +119,64 @@ Definition rand_bits (m : list Z) : Z :=
   end.
 
 (** `gen_biguint_below(bound)`: rejection loop; fuel = number of candidates inspected. *)
-Fixpoint below_loop (fuel : nat) (bits : Z) (bound : list Z) (s : rng) : outcome (list Z * rng) :=
+Fixpoint below_loop (p : rand_params) (fuel : nat) (bits : Z) (bound : list Z) (s : rng) : outcome (list Z * rng) :=
   match fuel with
   | O => OutOfFuel
   | S f =>
-      do x <- gen_biguint bits s;
+      do x <- gen_biguint p bits s;
       let '(n, r) := x in
       do c <- cmp_slice n bound;                                   (* n < *bound *)
-      match c with
-      | Lt => Ret (n, r)
-      | _ => below_loop f bits bound r
-      end
+      if cmp_ord (rnp_below_cmp p) c then Ret (n, r)
+      else below_loop p f bits bound r
   end.
-Definition gen_biguint_below (bound : list Z) (s : rng) : outcome (list Z * rng) :=
-  do _ <- assert_ (negb (uis_zero bound)) EmptyRange;             (* assert!(!bound.is_zero()) *)
-  below_loop (S (length s)) (rand_bits bound) bound s.
+Definition gen_biguint_below (p : rand_params) (bound : list Z) (s : rng) : outcome (list Z * rng) :=
+  do _ <- assert_ (blit (rnp_below_assert_neg p) (uis_zero bound)) EmptyRange;   (* assert!(!bound.is_zero()) *)
+  below_loop p (S (length s)) (rand_bits bound) bound s.
 
-Definition is_lt (c : comparison) : bool := match c with Lt => true | _ => false end.
-Definition is_le (c : comparison) : bool := match c with Gt => false | _ => true end.
 
 (** `gen_biguint_range(lbound, ubound)` *)
-Definition gen_biguint_range (p : addsub_params) (lo hi : list Z) (s : rng) : outcome (list Z * rng) :=
+Definition gen_biguint_range (rp : rand_params) (p : addsub_params) (lo hi : list Z) (s : rng) : outcome (list Z * rng) :=
   do c <- cmp_slice lo hi;
-  do _ <- assert_ (is_lt c) EmptyRange;                            (* assert!( *lbound < *ubound ) *)
-  if uis_zero lo then gen_biguint_below hi s
+  do _ <- assert_ (cmp_ord (rnp_urange_cmp rp) c) EmptyRange;      (* assert!( *lbound < *ubound ) *)
+  if blit (rnp_urange_zero_neg rp) (uis_zero lo) then gen_biguint_below rp hi s
   else
     do d <- usub p hi lo;                                          (* ubound - lbound *)
-    do x <- gen_biguint_below d s;
+    do x <- gen_biguint_below rp d s;
     let '(n, r) := x in
     do v <- uadd p n lo;                                           (* lbound + n  (forwarded to n += lbound) *)
     Ret (v, r).
 
 (** `gen_bigint_range(lbound, ubound)` *)
-Definition gen_bigint_range (p : addsub_params) (lo hi : bigint) (s : rng) : outcome (bigint * rng) :=
-  do c <- icmp lo hi;
-  do _ <- assert_ (is_lt c) EmptyRange;
-  if iis_zero lo then
-    do x <- gen_biguint_below (mag hi) s;
-    let '(n, r) := x in Ret (ifrom_u n, r)
-  else if iis_zero hi then
-    do x <- gen_biguint_below (mag lo) s;
+Definition gen_bigint_range (rp : rand_params) (sp : sign_params) (p : addsub_params) (lo hi : bigint) (s : rng) : outcome (bigint * rng) :=
+  do c <- icmp sp lo hi;
+  do _ <- assert_ (cmp_ord (rnp_irange_cmp rp) c) EmptyRange;
+  if blit (rnp_irange_lo_neg rp) (iis_zero sp lo) then
+    do x <- gen_biguint_below rp (mag hi) s;
+    let '(n, r) := x in Ret (ifrom_u sp n, r)
+  else if blit (rnp_irange_hi_neg rp) (iis_zero sp hi) then
+    do x <- gen_biguint_below rp (mag lo) s;
     let '(n, r) := x in
-    do v <- iadd p lo (ifrom_u n); Ret (v, r)
+    do v <- iadd p lo (ifrom_u sp n); Ret (v, r)
   else
     do delta <- isub p hi lo;
-    do x <- gen_biguint_below (mag delta) s;
+    do x <- gen_biguint_below rp (mag delta) s;
     let '(n, r) := x in
-    do v <- iadd p lo (ifrom_u n); Ret (v, r).
+    do v <- iadd p lo (ifrom_u sp n); Ret (v, r).
 
 (** `UniformBigUint` *)
 Record uniform_u := mk_uu { uu_base : list Z; uu_len : list Z }.
-Definition uu_new (p : addsub_params) (lo hi : list Z) : outcome uniform_u :=
+Definition uu_new (rp : rand_params) (p : addsub_params) (lo hi : list Z) : outcome uniform_u :=
   do c <- cmp_slice lo hi;
-  do _ <- assert_ (is_lt c) EmptyRange;                            (* assert!(low < high) *)
+  do _ <- assert_ (cmp_ord (rnp_uu_new_cmp rp) c) EmptyRange;      (* assert!(low < high) *)
   do len <- usub p hi lo;
   Ret (mk_uu lo len).
-Definition uu_new_inclusive (p : addsub_params) (lo hi : list Z) : outcome uniform_u :=
+Definition uu_new_inclusive (rp : rand_params) (p : addsub_params) (lo hi : list Z) : outcome uniform_u :=
   do c <- cmp_slice lo hi;
-  do _ <- assert_ (is_le c) EmptyRange;                            (* assert!(low <= high) *)
+  do _ <- assert_ (cmp_ord (rnp_uu_incl_cmp rp) c) EmptyRange;     (* assert!(low <= high) *)
   do h1 <- uadd p hi [1];                                          (* high + 1u32 *)
-  uu_new p lo h1.
-Definition uu_sample (p : addsub_params) (u : uniform_u) (s : rng) : outcome (list Z * rng) :=
-  do x <- gen_biguint_below (uu_len u) s;
+  uu_new rp p lo h1.
+Definition uu_sample (rp : rand_params) (p : addsub_params) (u : uniform_u) (s : rng) : outcome (list Z * rng) :=
+  do x <- gen_biguint_below rp (uu_len u) s;
   let '(n, r) := x in
   do v <- uadd p n (uu_base u);                                    (* &self.base + n *)
   Ret (v, r).
@@ -157,23 +184,23 @@ Definition uu_sample_single := gen_biguint_range.
 
 (** `UniformBigInt` *)
 Record uniform_i := mk_ui { ui_base : bigint; ui_len : list Z }.
-Definition ui_new (p : addsub_params) (lo hi : bigint) : outcome uniform_i :=
-  do c <- icmp lo hi;
-  do _ <- assert_ (is_lt c) EmptyRange;
+Definition ui_new (rp : rand_params) (sp : sign_params) (p : addsub_params) (lo hi : bigint) : outcome uniform_i :=
+  do c <- icmp sp lo hi;
+  do _ <- assert_ (cmp_ord (rnp_ui_new_cmp rp) c) EmptyRange;
   do d <- isub p hi lo;
   Ret (mk_ui lo (snd (into_parts d))).
-Definition ui_new_inclusive (p : addsub_params) (lo hi : bigint) : outcome uniform_i :=
-  do c <- icmp lo hi;
-  do _ <- assert_ (is_le c) EmptyRange;
+Definition ui_new_inclusive (rp : rand_params) (sp : sign_params) (p : addsub_params) (lo hi : bigint) : outcome uniform_i :=
+  do c <- icmp sp lo hi;
+  do _ <- assert_ (cmp_ord (rnp_ui_incl_cmp rp) c) EmptyRange;
   do h1 <- iadd p hi ione;                                         (* high + 1u32 *)
-  ui_new p lo h1.
-Definition ui_sample (p : addsub_params) (u : uniform_i) (s : rng) : outcome (bigint * rng) :=
-  do x <- gen_biguint_below (ui_len u) s;
+  ui_new rp sp p lo h1.
+Definition ui_sample (rp : rand_params) (sp : sign_params) (p : addsub_params) (u : uniform_i) (s : rng) : outcome (bigint * rng) :=
+  do x <- gen_biguint_below rp (ui_len u) s;
   let '(n, r) := x in
-  do v <- iadd p (ui_base u) (ifrom_u n);
+  do v <- iadd p (ui_base u) (ifrom_u sp n);
   Ret (v, r).
 Definition ui_sample_single := gen_bigint_range.
 
 (** `RandomBits` *)
-Definition random_bits_u (bits : Z) (s : rng) := gen_biguint bits s.
-Definition random_bits_i (bits : Z) (s : rng) := gen_bigint bits s.
+Definition random_bits_u (p : rand_params) (bits : Z) (s : rng) := gen_biguint p bits s.
+Definition random_bits_i (p : rand_params) (bits : Z) (s : rng) := gen_bigint p bits s.
